@@ -265,8 +265,19 @@ class World:
         elif r < 0.8:
             k = m // c.increment
             size = c.increment * rng.randint(1, max(1, k)) if k else m
-        else:
+        elif r < 0.9:
             g = 10 ** c.precision
+            k = m // g
+            size = g * rng.randint(1, max(1, k)) if k else rng.randint(1, m)
+        else:
+            # smallest grid on which one of the two limit prices times the size is whole (the other may not be)
+            import math
+            pv = parse_dec(rng.choice([a.price, b.price]))
+            g = 10 ** c.precision
+            if pv is not None and pv > 0:
+                u = pv * g
+                if u.denominator == 1:
+                    g = g // math.gcd(int(u), g)
             k = m // g
             size = g * rng.randint(1, max(1, k)) if k else rng.randint(1, m)
         price = rng.choice([a.price, b.price])
